@@ -1082,6 +1082,67 @@ func main() {
 				_ = want
 			}
 		}
+		// --- mixed use (round 7): a few Reads, then io.Copy FROM the reader (io.Copy picks WriteTo when the reader has
+		// one); a few Writes, then io.Copy INTO the writer (ReadFrom when the writer has one).  Every byte exactly once.
+		for _, cc := range cs {
+			for i := 0; i < 4; i++ {
+				p := payload(r, r.Intn(3), []int{300, 5000, 40000, 70000}[i])
+				stream, err := compressChunks(cc.codec, p, []int{len(p)})
+				if err != nil {
+					continue
+				}
+				nreads := 1 + r.Intn(3)
+				sz := []int{1, 7, 100, 3000}[r.Intn(4)]
+				emit(fmt.Sprintf("rt %s mixr%dx%d %s", cc.name, nreads, sz, sum(p)), guard(func() string {
+					rd := cc.codec.NewReader(bytes.NewReader(stream))
+					defer rd.Close()
+					var got []byte
+					for j := 0; j < nreads; j++ {
+						buf := make([]byte, sz)
+						n, err := rd.Read(buf)
+						got = append(got, buf[:n]...)
+						if err != nil {
+							if errors.Is(err, io.EOF) {
+								break
+							}
+							return "error:read:" + err.Error()
+						}
+					}
+					var rest bytes.Buffer
+					if _, err := io.Copy(&rest, rd); err != nil {
+						return "error:copy-after-read:" + strings.ReplaceAll(err.Error(), " ", "_")
+					}
+					got = append(got, rest.Bytes()...)
+					return "ok " + sum(got)
+				}))
+				nw := 1 + r.Intn(3)
+				emit(fmt.Sprintf("rt %s mixw%dx%d %s", cc.name, nw, sz, sum(p)), guard(func() string {
+					var buf bytes.Buffer
+					w := cc.codec.NewWriter(&buf)
+					rest := p
+					for j := 0; j < nw && len(rest) > sz; j++ {
+						if _, err := w.Write(rest[:sz]); err != nil {
+							w.Close()
+							return "error:write:" + err.Error()
+						}
+						rest = rest[sz:]
+					}
+					// the source must not offer WriteTo itself, or io.Copy never asks the writer for ReadFrom
+					if _, err := io.Copy(w, struct{ io.Reader }{bytes.NewReader(rest)}); err != nil {
+						w.Close()
+						return "error:copy-after-write:" + strings.ReplaceAll(err.Error(), " ", "_")
+					}
+					if err := w.Close(); err != nil {
+						return "error:close:" + err.Error()
+					}
+					d, err := refDecode(cc.name, buf.Bytes())
+					if err != nil {
+						return "error:not-readable-by-the-reference-decoder:" + strings.ReplaceAll(err.Error(), " ", "_")
+					}
+					return "ok " + sum(d)
+				}))
+			}
+		}
 		// --- srcerr: the underlying reader fails after k bytes: an error (or the full payload), never wrong data
 		for _, cc := range cs {
 			for i := 0; i < 6; i++ {
